@@ -2175,12 +2175,22 @@ def c18_cli(ctx, broken):
         if not all(kmers_unique([s], k - 1) for s in seqs):
             continue
         done += 1
+        # every other family gets a strain mixture: one more sample whose file holds the sequences of two of the
+        # others as two records - it carries both alleles wherever those two differ and must be genotyped 0/1 there
+        mix = None
+        if done % 2 == 0 and nsamp >= 3:
+            ma, mb = rnd.sample(range(nsamp), 2)
+            mix = (ma, mb)
+            seqs.append(seqs[ma] + "|" + seqs[mb])
+            indels = [(p, kind, ln, set(carriers) | ({nsamp} if (ma in carriers or mb in carriers) else set()), seq) for (p, kind, ln, carriers, seq) in indels]
+            mix_non = [not (ma in c0 and mb in c0) for (_, _, _, c0, _) in [(p, kd, ln, c - {nsamp}, sq) for (p, kd, ln, c, sq) in indels]]
+            nsamp += 1
         d = fresh_dir(ctx, "c18cli")
         files = []
         snames = lo_names(len(seqs))
         for si, s in enumerate(seqs):
             f = os.path.join(d, f"{snames[si]}.fa")
-            write_fasta(f, [s])
+            write_fasta(f, s.split("|"))
             files.append(f)
         ska(["build", "-o", os.path.join(d, "x"), "-k", str(k)] + files, d)
         threads = rnd.choice([1, 2, 4])
@@ -2222,7 +2232,10 @@ def c18_cli(ctx, broken):
             cands = []
             insert = refa if alta == "-" else alta
             for ii, (p, kind, ln, carriers, seq) in enumerate(indels):
-                short_carriers = carriers if kind == "del" else set(range(nsamp)) - carriers
+                non_carriers = set(range(nsamp)) - carriers
+                if mix is not None and mix_non[ii]:
+                    non_carriers.add(nsamp - 1)        # the mixture also holds the other allele
+                short_carriers = carriers if kind == "del" else non_carriers
                 short = "0" if len(alle["0"]) < len(alle["1"]) else "1"
                 got_short = set0 if short == "0" else set1
                 if abs(len(alle["0"]) - len(alle["1"])) == ln and got_short == short_carriers:
